@@ -374,6 +374,33 @@ def tworoute_case(r):
     return {"kind": "steps", "text": "\n".join(out) + "\n", "steps": steps, "cls": f"tworoute|{route}|{'with' if has_with else 'nowith'}|{'rec' if rec else 'plain'}"}
 
 
+def withvalue_case(r):
+    """`x = with env; { z = c; w = q; };` as a binding of a (rec) set below a let: resolved, then the enclosing set gains or
+    loses its own `c` through the CLI helper on the same object, then resolved again."""
+    base = r.randrange(1, 9) * 1000
+    let_c, set_c, new_c, env_q = base + 1, base + 2, base + 3, base + 4
+    rec = r.random() < 0.7
+    has_c = r.random() < 0.5
+    env_lit = r.random() < 0.25
+    env = f"{{ q = {env_q}; }}" if env_lit else "env"
+    body = ([f"  c = {set_c};"] if has_c else []) + [f"  x = with {env}; {{ z = c; w = q; }};", "  other = 1;"]
+    r.shuffle(body)
+    out = ["let", f"  c = {let_c};"] + ([] if env_lit else [f"  env = {{ q = {env_q}; }};"]) + ["in", ("rec {" if rec else "{")] + body + ["}"]
+    cur = set_c if (rec and has_c) else let_c
+    steps = [["probe", ["x", "z"], None, cur], ["probe", ["x", "w"], None, env_q]]
+    if has_c:
+        steps.append(["rm", "c"])
+        after = let_c
+    else:
+        steps.append(["set", "c", str(new_c)])
+        after = new_c if rec else let_c
+    steps += [["probe", ["x", "z"], None, after], ["probe", ["x", "w"], None, env_q]]
+    if r.random() < 0.5:
+        steps.insert(0, steps.pop(1))
+    return {"kind": "steps", "text": "\n".join(out) + "\n", "steps": steps, "cls": f"withvalue|{'rec' if rec else 'plain'}|{'rm' if has_c else 'add'}|{'literal-env' if env_lit else 'named-env'}"}
+
+
+
 def judge_steps(case):
     nima.reset_state()
     fails = []
@@ -389,7 +416,7 @@ def judge_steps(case):
                 text = nima.set_value(src, st_[1], st_[2])
             except Exception:  # noqa: BLE001
                 return fails, answered
-            if f"s = {st_[2]};" not in text:
+            if st_[1] == "x" and f"s = {st_[2]};" not in text:
                 return fails, answered  # where the write lands is C11's subject; only the written-through shape is probed here
             continue
         if st_[0] == "rm":
@@ -503,7 +530,7 @@ def run_shard(sh):
                     sh.fail(k, case, dd)
             return
         if n % 10 == 3:
-            case = tworoute_case(random.Random(n))
+            case = tworoute_case(random.Random(n)) if (n // 10) % 2 == 0 else withvalue_case(random.Random(n))
             fails, answered = judge_steps(case)
             sh.record(case, answered >= 2, case["cls"].split("|") + [f"answered:{min(answered, 3)}"])
             for k, dd in fails[:1]:
